@@ -293,11 +293,28 @@ func drvConc(args []string) error {
 			n := runtime.Stack(buf, true)
 			fmt.Fprintf(os.Stderr, "DEADLOCK in %s round %d: goroutines stuck for 60 s\n%s\n", kind, round, buf[:n])
 		}
+		if ht, ok := tgt.(*hybTarget); ok && ht.store != nil && !deadlock {
+			ht.store.TriggerCompaction() // a compaction that has just started when Close arrives
+			if rng.Intn(2) == 0 {
+				time.Sleep(time.Duration(rng.Intn(3)) * time.Millisecond)
+			}
+		}
+		if !deadlock { // Close races with whatever the background workers are doing: it must return too
+			closed := make(chan struct{})
+			go func() { tgt.close(); close(closed) }()
+			select {
+			case <-closed:
+			case <-time.After(60 * time.Second):
+				deadlock = true
+				buf := make([]byte, 1<<20)
+				n := runtime.Stack(buf, true)
+				fmt.Fprintf(os.Stderr, "DEADLOCK in %s round %d: Close did not return within 60 s\n%s\n", kind, round, buf[:n])
+			}
+		}
 		log(E{"seq": seq.Add(1), "ev": "end", "deadlock": deadlock, "panic": panicked.Load(), "kind": kind})
 		if deadlock {
 			break
 		}
-		tgt.close()
 	}
 	// forced schedule at the yield point between choosing the active memtable and writing to it (D5)
 	for k := 0; k < 3 && *cf.count > 0; k++ {
@@ -306,6 +323,25 @@ func drvConc(args []string) error {
 			return err
 		}
 		log(E{"seq": seq.Add(1), "ev": "end", "deadlock": false, "panic": false, "kind": "store-forced"})
+	}
+	// forced schedules at the yield point between Remove's existence check and its tombstone write
+	if *cf.count > 0 {
+		for _, kind := range []string{"flat", "hnsw", "ivf", "pq", "ivfpq", "bm25"} {
+			if !containsStr(kindList, kind) {
+				continue
+			}
+			log(E{"seq": seq.Add(1), "ev": "reset", "kind": kind + "-forced-remove"})
+			dl, err := forcedRemoveRace(kind, rng, log, &seq, &callID, &nextDoc)
+			if err != nil {
+				return err
+			}
+			log(E{"seq": seq.Add(1), "ev": "end", "deadlock": dl, "panic": false, "kind": kind + "-forced-remove"})
+		}
+		if containsStr(kindList, "store") {
+			log(E{"seq": seq.Add(1), "ev": "reset", "kind": "store-forced-close"})
+			dl := forcedCloseDuringCompaction(log, &seq, &callID, &nextDoc)
+			log(E{"seq": seq.Add(1), "ev": "end", "deadlock": dl, "panic": false, "kind": "store-forced-close"})
+		}
 	}
 	sort.Slice(all, func(i, j int) bool { return all[i]["seq"].(int64) < all[j]["seq"].(int64) })
 	t, err := newTrace(*cf.out)
@@ -413,4 +449,158 @@ func forcedAddVsRotation(log func(E), seq, callID *atomic.Int64, nextDoc *atomic
 	res, err := tgt.search()
 	log(E{"seq": seq.Add(1), "ev": "ret", "c": c, "op": "search", "id": 0, "ok": err == nil, "res": res, "exact": true, "err": errStr(err)})
 	return nil
+}
+
+func containsStr(xs []string, x string) bool {
+	for _, y := range xs {
+		if y == x {
+			return true
+		}
+	}
+	return false
+}
+
+type opLogger struct {
+	log    func(E)
+	seq    *atomic.Int64
+	callID *atomic.Int64
+	tgt    concTarget
+}
+
+func (o *opLogger) add(d uint32) {
+	c := o.callID.Add(1)
+	o.log(E{"seq": o.seq.Add(1), "ev": "call", "c": c, "op": "add", "id": d})
+	err := o.tgt.add(d)
+	o.log(E{"seq": o.seq.Add(1), "ev": "ret", "c": c, "op": "add", "id": d, "ok": err == nil, "err": errStr(err)})
+}
+func (o *opLogger) remove(d uint32, mayfail bool) {
+	c := o.callID.Add(1)
+	o.log(E{"seq": o.seq.Add(1), "ev": "call", "c": c, "op": "remove", "id": d})
+	err := o.tgt.remove(d)
+	o.log(E{"seq": o.seq.Add(1), "ev": "ret", "c": c, "op": "remove", "id": d, "ok": err == nil, "mayfail": mayfail, "err": errStr(err)})
+}
+func (o *opLogger) flush() {
+	c := o.callID.Add(1)
+	o.log(E{"seq": o.seq.Add(1), "ev": "call", "c": c, "op": "flush", "id": 0})
+	err := o.tgt.flush()
+	o.log(E{"seq": o.seq.Add(1), "ev": "ret", "c": c, "op": "flush", "id": 0, "ok": err == nil, "err": errStr(err)})
+}
+func (o *opLogger) search() {
+	c := o.callID.Add(1)
+	o.log(E{"seq": o.seq.Add(1), "ev": "call", "c": c, "op": "search", "id": 0})
+	res, err := o.tgt.search()
+	o.log(E{"seq": o.seq.Add(1), "ev": "ret", "c": c, "op": "search", "id": 0, "ok": err == nil, "res": res, "exact": o.tgt.exact(), "err": errStr(err)})
+}
+
+// forcedRemoveRace: A.Remove(x) is parked between its check and its mark; B removes x and flushes (x is purged); A resumes and
+// marks a tombstone for a document that is gone; a second flush, searches, then x is added again. Every other document must stay
+// visible throughout and x must be visible again at the end.
+func forcedRemoveRace(kind string, rng *rand.Rand, log func(E), seq, callID *atomic.Int64, nextDoc *atomic.Uint32) (bool, error) {
+	tgt, err := newTarget(kind, rng)
+	if err != nil {
+		return false, err
+	}
+	o := &opLogger{log, seq, callID, tgt}
+	// one other document only: a statistics counter that goes one too low then reaches zero
+	keep1, x := nextDoc.Add(1), nextDoc.Add(1)
+	o.add(keep1)
+	o.add(x)
+	var first atomic.Bool
+	parked, resume := make(chan struct{}), make(chan struct{})
+	comet.VerifSetHandler(func(point string, args ...any) {
+		if point == kind+".remove.checked" && first.CompareAndSwap(false, true) { // only the first arrival parks
+			close(parked)
+			<-resume
+		}
+	})
+	defer comet.VerifSetHandler(nil)
+	done := make(chan struct{})
+	go func() { o.remove(x, true); close(done) }() // (may report an error if the document is gone when it resumes: either outcome is a valid linearisation)
+	deadlock := false
+	select {
+	case <-parked:
+		o.remove(x, false)
+		o.flush()
+		o.search()
+		close(resume)
+	case <-done:
+		close(resume)
+	case <-time.After(10 * time.Second):
+		close(resume)
+		deadlock = true
+	}
+	select {
+	case <-done:
+	case <-time.After(10 * time.Second):
+		return true, nil
+	}
+	o.search()
+	o.flush()
+	o.search()
+	o.add(nextDoc.Add(1))
+	o.search()
+	return deadlock, nil
+}
+
+// forcedCloseDuringCompaction: the compaction worker is parked after it obtained the identifier of its output segment (before the
+// swap); Close is called and must return once the compaction is released.
+func forcedCloseDuringCompaction(log func(E), seq, callID *atomic.Int64, nextDoc *atomic.Uint32) bool {
+	dir, _ := os.MkdirTemp("", "vh-cc-")
+	defer os.RemoveAll(dir)
+	cfg := comet.DefaultStorageConfig(dir)
+	cfg.MemtableSizeLimit = 172 + 60
+	cfg.FlushThreshold = 1 << 40
+	cfg.CompactionInterval = time.Hour
+	cfg.CompactionThreshold = 2
+	f, _ := comet.NewFlatIndex(2, comet.L2Squared)
+	cfg.VectorIndexTemplate, cfg.TextIndexTemplate, cfg.MetadataIndexTemplate = f, comet.NewBM25SearchIndex(), comet.NewRoaringMetadataIndex()
+	st, err := comet.OpenPersistentHybridIndex(cfg)
+	if err != nil {
+		return false
+	}
+	tgt := &hybTarget{h: st, store: st, dir: dir}
+	o := &opLogger{log, seq, callID, tgt}
+	for i := 0; i < 3; i++ {
+		o.add(nextDoc.Add(1))
+		o.flush()
+	}
+	var first, second atomic.Bool
+	parked, resume, marked := make(chan struct{}), make(chan struct{}), make(chan struct{})
+	comet.VerifSetHandler(func(point string, args ...any) {
+		switch point {
+		case "compact.id":
+			if first.CompareAndSwap(false, true) {
+				close(parked)
+				<-resume
+			}
+		case "close.marked":
+			if second.CompareAndSwap(false, true) {
+				close(marked)
+			}
+		}
+	})
+	defer comet.VerifSetHandler(nil)
+	st.TriggerCompaction()
+	closed := make(chan struct{})
+	select {
+	case <-parked:
+		go func() { st.Close(); close(closed) }()
+		select {
+		case <-marked:
+		case <-time.After(2 * time.Second): // Close did not get as far as marking the store closed while the compaction is parked
+		}
+		close(resume)
+	case <-time.After(5 * time.Second):
+		close(resume)
+		go func() { st.Close(); close(closed) }()
+	}
+	select {
+	case <-closed:
+		return false
+	case <-time.After(20 * time.Second):
+		buf := make([]byte, 1<<20)
+		n := runtime.Stack(buf, true)
+		fmt.Fprintf(os.Stderr, "DEADLOCK in store-forced-close: Close did not return within 20 s of releasing the compaction\n%s\n", buf[:n])
+		return true
+	}
 }
